@@ -124,7 +124,21 @@ def to_formula(e: ast.AST, env: dict, bool_vars: dict):
     if isinstance(e, ast.IfExp):
         t = to_formula(e.test, env, bool_vars)
         return f_or(f_and(t, to_formula(e.body, env, bool_vars)), f_and(f_not(t), to_formula(e.orelse, env, bool_vars)))
+    if isinstance(e, ast.BinOp) and isinstance(e.op, (ast.BitOr, ast.BitAnd)):
+        a, b = to_formula(e.left, env, bool_vars), to_formula(e.right, env, bool_vars)
+        return f_or(a, b) if isinstance(e.op, ast.BitOr) else f_and(a, b)
+    if isinstance(e, ast.Name) and e.id in env and isinstance(env[e.id], ast.AST) and _boolish_expr(env[e.id]):
+        return to_formula(env[e.id], {k: v for k, v in env.items() if k != e.id}, bool_vars)
+    if isinstance(e, ast.Call) and isinstance(e.func, ast.Name) and e.func.id == "bool" and len(e.args) == 1 and not e.keywords:
+        return to_formula(e.args[0], env, bool_vars)
     return ("atom", canon_expr(subst(e, env)))
+
+
+def _boolish_expr(e: ast.AST) -> bool:
+    return isinstance(e, (ast.Compare, ast.BoolOp, ast.IfExp)) or (isinstance(e, ast.Constant) and isinstance(e.value, bool)) \
+        or (isinstance(e, ast.UnaryOp) and isinstance(e.op, ast.Not)) \
+        or (isinstance(e, ast.BinOp) and isinstance(e.op, (ast.BitOr, ast.BitAnd))) \
+        or (isinstance(e, ast.Call) and isinstance(e.func, ast.Name) and e.func.id in ("all", "any", "bool"))
 
 
 def formula_of(fnode, ignore_calls=("print",)) -> tuple:
@@ -133,6 +147,10 @@ def formula_of(fnode, ignore_calls=("print",)) -> tuple:
     bvars: dict = {}        # name -> formula for boolean accumulators
 
     def is_boolish(e):
+        if isinstance(e, ast.IfExp):
+            return is_boolish(e.body) and is_boolish(e.orelse)
+        if isinstance(e, ast.BinOp) and isinstance(e.op, (ast.BitOr, ast.BitAnd)):
+            return is_boolish(e.left) and is_boolish(e.right)
         return isinstance(e, (ast.Compare, ast.BoolOp)) or (isinstance(e, ast.Constant) and isinstance(e.value, bool)) \
             or (isinstance(e, ast.UnaryOp) and isinstance(e.op, ast.Not)) \
             or (isinstance(e, ast.Call) and isinstance(e.func, ast.Name) and e.func.id in ("all", "any", "bool")) \
@@ -148,6 +166,10 @@ def formula_of(fnode, ignore_calls=("print",)) -> tuple:
                 if isinstance(st.value, ast.Call) and isinstance(st.value.func, ast.Name) and st.value.func.id in ignore_calls:
                     continue
                 raise FrmUnknown(f"statement `{norm(st, 60)}`")
+            if isinstance(st, ast.AnnAssign) and st.value is not None and isinstance(st.target, ast.Name):
+                st = ast.copy_location(ast.Assign(targets=[st.target], value=st.value), st)
+            if isinstance(st, (ast.FunctionDef, ast.Pass)):
+                continue      # remaining local helper definitions: their uses stay opaque atoms
             if isinstance(st, ast.Assign) and len(st.targets) == 1:
                 t = st.targets[0]
                 if isinstance(t, ast.Name):
@@ -245,13 +267,27 @@ _NEG = {" is not ": " is ", " is ": " is not ", " < ": " >= ", " <= ": " > ", " 
 
 
 def _neg_atom(a: str) -> str:
-    for op in (" is not ", " is ", " <= ", " < ", " == ", " != "):
-        if op in a and a.count(op) == 1 and not a.startswith(("all(", "any(")):
-            l, r = a.split(op)
-            new = _NEG[op]
-            if new in (" >= ", " > "):
-                return f"{r}{' <= ' if new == ' >= ' else ' < '}{l}"
-            return f"{l}{new}{r}"
+    """Negation of an atom: a *top-level* comparison is negated structurally, anything else gets a `!` prefix."""
+    if a.startswith("!"):
+        return a[1:]
+    try:
+        e = ast.parse(a, mode="eval").body
+    except SyntaxError:
+        return "!" + a
+    if isinstance(e, ast.Compare) and len(e.ops) == 1:
+        l, r, op = norm(e.left, 400), norm(e.comparators[0], 400), e.ops[0]
+        if isinstance(op, ast.IsNot):
+            return f"{l} is {r}"
+        if isinstance(op, ast.Is):
+            return f"{l} is not {r}"
+        if isinstance(op, ast.Eq):
+            return f"{l} != {r}"
+        if isinstance(op, ast.NotEq):
+            return f"{l} == {r}"
+        if isinstance(op, ast.Lt):
+            return f"{r} <= {l}"
+        if isinstance(op, ast.LtE):
+            return f"{r} < {l}"
     return "!" + a
 
 
@@ -281,19 +317,22 @@ def absorb(d: frozenset) -> frozenset:
 # ---------------------------------------------------------------------------------------------
 
 def base_atom(a: str) -> tuple:
-    """(base text, polarity).  `x < y` is the negation of base `y <= x`; `is not` of `is`; `!=` of `==`."""
+    """(base text, polarity).  `x < y` is the negation of base `y <= x`; `is not` of `is`; `!=` of `==` (top level only)."""
     if a.startswith("!"):
         b, p = base_atom(a[1:])
         return b, not p
-    if a.startswith(("all(", "any(")):
+    try:
+        e = ast.parse(a, mode="eval").body
+    except SyntaxError:
         return a, True
-    for op, pos_op in ((" is not ", " is "), (" != ", " == ")):
-        if a.count(op) == 1:
-            l, r = a.split(op)
-            return f"{l}{pos_op}{r}", False
-    if a.count(" < ") == 1 and " <= " not in a:
-        l, r = a.split(" < ")
-        return f"{r} <= {l}", False
+    if isinstance(e, ast.Compare) and len(e.ops) == 1:
+        l, r, op = norm(e.left, 400), norm(e.comparators[0], 400), e.ops[0]
+        if isinstance(op, ast.IsNot):
+            return f"{l} is {r}", False
+        if isinstance(op, ast.NotEq):
+            return f"{l} == {r}", False
+        if isinstance(op, ast.Lt):
+            return f"{r} <= {l}", False
     return a, True
 
 
